@@ -1,6 +1,7 @@
 import DateutilVerif.Properties.C04
 import DateutilVerif.Properties.TzObjGen   -- translator tie (wt-iso): tzlocal
 import DateutilVerif.Properties.TzGen   -- translator tie (wt-iso): obligations about the re-translated lookup functions
+import DateutilVerif.Properties.TzFixedGen   -- translator tie for tzutc / tzoffset (wt-tzfile)
 #print axioms C04.roundtrip
 #print axioms C04.inj
 #print axioms C04.offset_in_force
@@ -32,3 +33,9 @@ import DateutilVerif.Properties.TzGen   -- translator tie (wt-iso): obligations 
 #print axioms C04.gen_eq_model_validate_fromutc_inputs
 #print axioms C04.gen_eq_model_fromutc_decorated
 #print axioms C04.gen_eq_model_tzfile_fromutc_decorated
+-- translator tie for the fixed zones (wt-tzfile): Gen.tzutc_* / tzoffset_* (Generated/TzFixedKernels.lean) = FixedZone
+#print axioms C04.gen_eq_model_get_supported_offset
+#print axioms C04.gen_tzoffset_init_eq_model
+#print axioms C04.gen_tzoffset_methods_eq_model
+#print axioms C04.gen_tzutc_methods_eq_model
+#print axioms C04.roundtrip_fixed_gen
